@@ -323,6 +323,14 @@ func runCut(e *Env, prop string) {
 		return
 	}
 	e.Probe("closed")
+	// a library goroutine parked on a mutex at quiescence has deadlocked (nobody is left to release it); what
+	// it was about to release stays unreleased as a consequence: reported as the deadlock it is
+	for _, a := range e.K.Actors() {
+		if a.Lib && !a.Done() && a.Blocked() && a.PendingKind().String() == "lock" {
+			e.Violate(prop, "goroutine-deadlocked-on-lock", fmt.Sprintf("library goroutine started at %s is blocked on a lock at quiescence, the subscription being closed (trace %s)", a.Site, rec.Trace()))
+			return
+		}
+	}
 	// closed and Subscribe returned: at this quiescent point every source must have been released
 	for _, s := range srcs {
 		if s.Live != 0 {
